@@ -31,6 +31,7 @@ type Workload struct {
 	Every   int    `json:"every"` // record every k-th step (all steps are executed)
 	Mixed   bool   `json:"mixed"` // transactions of varying size, some as two-table Additions (no auto-compaction of their own)
 	Seed    int64  `json:"seed"`
+	SameObj bool   `json:"sameobj"` // every ref points at ONE object: its object-index record outgrows a block (position list omitted)
 }
 
 type Job struct {
@@ -129,6 +130,9 @@ func runWorkload(w Workload) Out {
 				rec := reftable.RefRecord{RefName: nm, UpdateIndex: idx}
 				h := make([]byte, hs)
 				copy(h, fmt.Sprintf("%08d", n))
+				if w.SameObj {
+					copy(h, "00000007")
+				}
 				switch w.Kind {
 				case "value":
 					rec.Value = h
